@@ -21,7 +21,8 @@ ITEMS = ["writer_chunking_enabled (ClientRequest._create_writer test)", "client_
          "_update_body_from_data shape", "_send Connection block shape", "_prepare_headers keep-alive shape",
          "HttpResponseParser close default shape", "response empty_body rule",
          "write_eof_only_after_success (_write_bytes try/except/else)",
-         "continue_waiter_created / server_sends_100 (_update_expect_continue, _default_expect_handler)"]
+         "continue_waiter_created / server_sends_100 (_update_expect_continue, _default_expect_handler)",
+         "client_counts_declared_length (_send writer.length, _write_bytes shortfall)"]
 
 CR = "aiohttp/client_reqrep.py"
 
@@ -79,6 +80,8 @@ def _chunking_test():
         return t, "match c with Some _ => true | None => false end"
     if t in ("self.chunked", "self.chunked is True"):
         return t, "match c with Some true => true | _ => false end"
+    if t == "self.chunked and hdrs.TRANSFER_ENCODING in self.headers":
+        return t, "match c with Some true => te | _ => false end"
     raise TranslatorError(f"_create_writer: unrecognised chunking test {t!r}")
 
 
@@ -220,8 +223,9 @@ def _write_eof_placement():
 def generate() -> str:
     out = []
     test, body = _chunking_test()
-    out.append(f"(* ClientRequest._create_writer: `if {test}: writer.enable_chunking()`; c = self.chunked (None / Some bool) *)\n"
-               f"Definition writer_chunking_enabled (c : option bool) : bool := {body}.\n")
+    out.append(f"(* ClientRequest._create_writer: `if {test}: writer.enable_chunking()`; c = self.chunked (None / Some bool),\n"
+               "   te = a Transfer-Encoding header is in self.headers *)\n"
+               f"Definition writer_chunking_enabled (c : option bool) (te : bool) : bool := {body}.\n")
     out.append("(* ClientRequest.GET_METHODS / ClientRequestBase.POST_METHODS *)\n"
                "Definition client_get_methods : list (list N) := [" + "; ".join(core.coq_bytes(m) for m in _meth_set("ClientRequest", "GET_METHODS")) + "].\n"
                "Definition client_post_methods : list (list N) := [" + "; ".join(core.coq_bytes(m) for m in _meth_set("ClientRequestBase", "POST_METHODS")) + "].\n")
@@ -305,6 +309,16 @@ def generate() -> str:
         raise TranslatorError(f"feed_data: empty_body rule is {eb}")
     out.append("(* feed_data: empty_body = code in EMPTY_BODY_STATUS_CODES or bool(code and method and method in EMPTY_BODY_METHODS) *)\n"
                "Definition response_empty_body_rule_is_status_or_head : bool := true.\n")
+    send_src = ast.unparse(send)
+    sets_len = "writer.length = content_length" in send_src and "content_length = self._get_content_length()" in send_src
+    wb = ast.unparse(core.find_function(CR, "_write_bytes", cls="ClientRequest"))
+    short_raise = ("missing = writer.length if content_length is not None else None" in wb
+                   and "if type(missing) is int and missing > 0:" in wb and "raise ClientPayloadError" in wb)
+    if sets_len != short_raise:
+        raise TranslatorError(f"_send sets writer.length: {sets_len}; _write_bytes raises on a shortfall: {short_raise}")
+    out.append("(* ClientRequestBase._send: `writer.length = content_length` before the body is written, and _write_bytes raises\n"
+               "   ClientPayloadError (no write_eof) when the body source ended short of the declared Content-Length *)\n"
+               f"Definition client_counts_declared_length : bool := {'true' if sets_len else 'false'}.\n")
     ok = _write_eof_placement()
     out.append("(* ClientRequest._write_bytes: writer.write_eof() runs only in the `else:` of the try around the body write,\n"
                "   i.e. not after a handled OSError / Exception of the body source *)\n"
